@@ -74,3 +74,197 @@ fn m24_as_list_via_args() {
     std::mem::forget(args);
     std::mem::forget(heap);
 }
+crate::kproof!(cut, 6, fn m30_percentile_empty() {
+    let p: f64 = kani::any();
+    let l = arena::list_cell(vec![]);
+    let heap = arena::heap();
+    let _ = blots_core::functions::BuiltInFunction::Percentile.call(crate::av![l, Value::Number(p)], heap.clone(), arena::env(), 0, "");
+    std::mem::forget(heap);
+});
+crate::kproof!(cut, 6, fn m31_chunk_empty() {
+    let p: f64 = kani::any();
+    let l = arena::list_cell(vec![]);
+    let heap = arena::heap();
+    let _ = blots_core::functions::BuiltInFunction::Chunk.call(crate::av![l, Value::Number(p)], heap.clone(), arena::env(), 0, "");
+    std::mem::forget(heap);
+});
+crate::kproof!(cut, 6, fn m32_includes_empty() {
+    let p: f64 = kani::any();
+    let l = arena::list_cell(vec![]);
+    let heap = arena::heap();
+    let _ = blots_core::functions::BuiltInFunction::Includes.call(crate::av![l, Value::Number(p)], heap.clone(), arena::env(), 0, "");
+    std::mem::forget(heap);
+});
+crate::kproof!(noerr, 20, fn m40_env_insert_get() {
+    let a: f64 = kani::any();
+    let env = blots_core::environment::Environment::new();
+    env.insert(String::from("x"), Value::Number(a));
+    match env.get("x") { Some(Value::Number(v)) => assert!(v.to_bits() == a.to_bits()), _ => panic!("lost binding") }
+    assert!(env.get("y").is_none());
+    assert!(env.contains_key("x") && !env.contains_key("y"));
+    kani::cover!(true, "reach-end");
+    std::mem::forget(env);
+});
+macro_rules! m50 {
+    ($name:ident, $f:expr) => {
+        crate::kproof!(cut, 6, fn $name() {
+            let (a, b): (f64, f64) = (kani::any(), kani::any());
+            let l = arena::list_cell(vec![Value::Number(a), Value::Number(b)]);
+            let heap = arena::heap();
+            let _ = $f.call(crate::av![l], heap.clone(), arena::env(), 0, "");
+            std::mem::forget(heap);
+        });
+    };
+}
+use blots_core::functions::BuiltInFunction as BB;
+m50!(m50_len, BB::Len); m50!(m50_head, BB::Head); m50!(m50_tail, BB::Tail); m50!(m50_unique, BB::Unique); m50!(m50_sort, BB::Sort);
+m50!(m50_reverse, BB::Reverse); m50!(m50_any, BB::Any); m50!(m50_all, BB::All); m50!(m50_flatten, BB::Flatten);
+#[cfg(kani)]
+#[kani::proof]
+#[kani::unwind(6)]
+fn m60_empty_vec_plain() {
+    let a: f64 = kani::any();
+    let mut v: Vec<Value> = vec![];
+    for x in &v { if matches!(x, Value::Null) { marker(1); } }
+    v.push(Value::Number(a));
+    for x in &v { if matches!(x, Value::Null) { marker(1); } }
+    v.push(Value::Number(a));
+    std::mem::forget(v);
+}
+crate::kproof!(cut, 6, fn m61_empty_vec_stubs() {
+    let a: f64 = kani::any();
+    let mut v: Vec<Value> = vec![];
+    for x in &v { if matches!(x, Value::Null) { marker(1); } }
+    v.push(Value::Number(a));
+    for x in &v { if matches!(x, Value::Null) { marker(1); } }
+    v.push(Value::Number(a));
+    std::mem::forget(v);
+});
+crate::kproof!(noerr, 6, fn m62_unique_noerr() {
+    let (a, b): (f64, f64) = (kani::any(), kani::any());
+    let l = arena::list_cell(vec![Value::Number(a), Value::Number(b)]);
+    let heap = arena::heap();
+    let _ = BB::Unique.call(crate::av![l], heap.clone(), arena::env(), 0, "");
+    std::mem::forget(heap);
+});
+crate::kproof!(cut, 6, fn m63_unique_one() {
+    let a: f64 = kani::any();
+    let l = arena::list_cell(vec![Value::Number(a)]);
+    let heap = arena::heap();
+    let _ = BB::Unique.call(crate::av![l], heap.clone(), arena::env(), 0, "");
+    std::mem::forget(heap);
+});
+crate::kproof!(cut, 6, fn m64_unique_vecargs() {
+    let (a, b): (f64, f64) = (kani::any(), kani::any());
+    let l = arena::list_cell(vec![Value::Number(a), Value::Number(b)]);
+    let heap = arena::heap();
+    let _ = BB::Unique.call(vec![l], heap.clone(), arena::env(), 0, "");
+    std::mem::forget(heap);
+});
+fn unique_copy(args: Vec<Value>, heap: std::rc::Rc<std::cell::RefCell<Heap>>) -> Result<Value, blots_core::error::RuntimeError> {
+    let mut unique_list = vec![];
+    let borrowed_heap = heap.borrow();
+    let list = args[0].as_list(&borrowed_heap)?;
+    for item in list.iter() {
+        let mut is_duplicate = false;
+        for existing in &unique_list {
+            if item.equals(existing, &borrowed_heap)? {
+                is_duplicate = true;
+                break;
+            }
+        }
+        if !is_duplicate {
+            unique_list.push(*item);
+        }
+    }
+    drop(borrowed_heap);
+    Ok(heap.borrow_mut().insert_list(unique_list))
+}
+crate::kproof!(cut, 6, fn m65_unique_copy() {
+    let a: f64 = kani::any();
+    let l = arena::list_cell(vec![Value::Number(a)]);
+    let heap = arena::heap();
+    let _ = unique_copy(crate::av![l], heap.clone());
+    std::mem::forget(heap);
+});
+fn unique_copy2(args: Vec<Value>, heap: std::rc::Rc<std::cell::RefCell<Heap>>) -> Result<Value, blots_core::error::RuntimeError> {
+    let mut unique_list = vec![];
+    let borrowed_heap = heap.borrow();
+    let list = args[0].as_list(&borrowed_heap)?;
+    for item in list.iter() {
+        unique_list.push(*item);
+    }
+    drop(borrowed_heap);
+    Ok(heap.borrow_mut().insert_list(unique_list))
+}
+crate::kproof!(cut, 6, fn m66_unique_copy2() {
+    let a: f64 = kani::any();
+    let l = arena::list_cell(vec![Value::Number(a)]);
+    let heap = arena::heap();
+    let _ = unique_copy2(crate::av![l], heap.clone());
+    std::mem::forget(heap);
+});
+crate::kproof!(cut, 6, fn m67_push_from_other_vec() {
+    let a: f64 = kani::any();
+    let src_v = vec![Value::Number(a)];
+    let mut v: Vec<Value> = vec![];
+    for item in src_v.iter() { v.push(*item); }
+    std::mem::forget((v, src_v));
+});
+crate::kproof!(cut, 6, fn m68_push_from_heap_list() {
+    let a: f64 = kani::any();
+    let l = arena::list_cell(vec![Value::Number(a)]);
+    let heap = arena::heap();
+    let mut v: Vec<Value> = vec![];
+    {
+        let h = heap.borrow();
+        let list = match l.as_list(&h) { Ok(x) => x, Err(_) => panic!() };
+        for item in list.iter() { v.push(*item); }
+    }
+    std::mem::forget(v);
+    std::mem::forget(heap);
+});
+crate::kproof!(cut, 6, fn m69_push_then_insert() {
+    let a: f64 = kani::any();
+    let heap = arena::heap();
+    let mut v: Vec<Value> = vec![];
+    v.push(Value::Number(a));
+    let r = heap.borrow_mut().insert_list(v);
+    std::mem::forget(heap);
+});
+crate::kproof!(cut, 6, fn m70_unique_copy2_vecargs() {
+    let a: f64 = kani::any();
+    let l = arena::list_cell(vec![Value::Number(a)]);
+    let heap = arena::heap();
+    let _ = unique_copy2(vec![l], heap.clone());
+    std::mem::forget(heap);
+});
+fn unique_copy3(l: Value, heap: std::rc::Rc<std::cell::RefCell<Heap>>) -> Result<Value, blots_core::error::RuntimeError> {
+    let mut unique_list = vec![];
+    let borrowed_heap = heap.borrow();
+    let list = l.as_list(&borrowed_heap)?;
+    for item in list.iter() {
+        unique_list.push(*item);
+    }
+    drop(borrowed_heap);
+    Ok(Value::Null)
+}
+crate::kproof!(cut, 6, fn m71_unique_copy3() {
+    let a: f64 = kani::any();
+    let l = arena::list_cell(vec![Value::Number(a)]);
+    let heap = arena::heap();
+    let _ = unique_copy3(l, heap.clone());
+    std::mem::forget(heap);
+});
+#[cfg(kani)]
+#[kani::proof]
+#[kani::unwind(12)]
+#[kani::stub(std::hash::RandomState::new, crate::util::stub_random_state_new)]
+fn m80_expr_to_source_text() {
+    use blots_core::ast::*;
+    let e = sp(Expr::UnaryOp { op: UnaryOp::Negate, expr: arena::bx(arena::binop_e(BinaryOp::Add, Expr::Identifier(String::from("x")), Expr::Identifier(String::from("y")))) });
+    let s = blots_core::ast_to_source::expr_to_source(&e);
+    let b = s.as_bytes();
+    assert!(b.len() >= 2 && b[0] == b'-' && b[1] == b'(');
+    std::mem::forget((e, s));
+}
